@@ -25,6 +25,12 @@ pub enum Item {
 }
 
 pub fn mismatch(pat: Pat, psk_mask: u16, item: Item, k: usize) {
+    mismatch_inner(pat, psk_mask, item, k, false)
+}
+
+/// `two_real`: the writer is a real snow endpoint too (a defect that makes BOTH sides ignore an item is invisible
+/// when one side is the specification: it shows as non-conformance in C01 instead).
+pub fn mismatch_inner(pat: Pat, psk_mask: u16, item: Item, k: usize, two_real: bool) {
     // Only the disagreement itself is symbolic. With xor/rotate toy primitives a difference propagates linearly
     // and independently of the other inputs, so concrete keys lose nothing, while fully symbolic ones turn the
     // query into GF(2) linear algebra that CDCL solvers are bad at (measured: 400 s instead of 2 s).
@@ -82,12 +88,22 @@ pub fn mismatch(pat: Pat, psk_mask: u16, item: Item, k: usize) {
     let payload: [u8; 2] = [sym8()[0], sym8()[1]];
     let mut msg = [0u8; MSGBUF];
     let mut ok = true;
-    let n = HsOps::<P>::write(&mut rmw, &e[..4], &payload, &mut msg, &mut ok);
     let mut out = [0u8; 8];
+    kani::cover!(true, "C08 mismatch harness reached");
+    if two_real {
+        let wname = if rmw.initiator { NAME } else { unsafe { core::str::from_utf8_unchecked(&name_r) } };
+        let mut w = snow_from_rm_b::<8, 4, 4>(&rmw, wname, false);
+        set_rng_slot(0, &e);
+        let n = w.write_message(&payload, &mut msg);
+        assert!(n.is_ok(), "C08 harness: real writer");
+        let res = hs.read_message(&msg[..n.unwrap_or(0)], &mut out);
+        assert!(res.is_err(), "C08: a handshake message between two real endpoints was accepted although they disagree on a context item");
+        return;
+    }
+    let n = HsOps::<P>::write(&mut rmw, &e[..4], &payload, &mut msg, &mut ok);
     let res = hs.read_message(&msg[..n], &mut out);
     let mut ok_r = true;
     HsOps::<P>::read(&mut rmr, &msg[..n], &mut out, &mut ok_r);
-    kani::cover!(true, "C08 mismatch harness reached");
     assert!(!ok_r, "C08 harness: the specification itself accepts at this message (wrong detection point or linear cancellation)");
     assert!(res.is_err(), "C08: a handshake message was accepted although the two sides disagree on a context item");
     assert!(!hs.is_handshake_finished() || k + 1 < pat.nmsgs(), "C08: handshake finished despite the disagreement");
@@ -115,3 +131,19 @@ mismatch_harness!(c08_t_ik_rs, Pat::IK, 0, Item::RsOfInitiator, 0);
 mismatch_harness!(c08_t_kk_rs_r, Pat::KK, 0, Item::RsOfResponder, 0);
 mismatch_harness!(c08_t_nnpsk2_psk, Pat::NN, 4, Item::Psk(2), 1);
 mismatch_harness!(c08_t_ik_name, Pat::IK, 0, Item::NameByte, 0);
+
+macro_rules! mismatch2_harness {
+    ($name:ident, $pat:expr, $mask:expr, $item:expr, $k:expr) => {
+        #[kani::proof]
+        #[kani::unwind(34)]
+        pub fn $name() {
+            mismatch_inner($pat, $mask, $item, $k, true);
+        }
+    };
+}
+mismatch2_harness!(c08_q_tworeal_nnpsk0psk1_second_psk, Pat::NN, 3, Item::Psk(1), 0);
+mismatch2_harness!(c08_q_tworeal_nn_prologue, Pat::NN, 0, Item::Prologue, 1);
+mismatch2_harness!(c08_q_tworeal_nk_rs, Pat::NK, 0, Item::RsOfInitiator, 0);
+mismatch2_harness!(c08_t_tworeal_xxpsk0psk3_psk3, Pat::XX, 9, Item::Psk(3), 2);
+mismatch2_harness!(c08_t_tworeal_kk_rs_r, Pat::KK, 0, Item::RsOfResponder, 0);
+mismatch2_harness!(c08_t_tworeal_nnpsk1psk2_psk2, Pat::NN, 6, Item::Psk(2), 1);
